@@ -241,6 +241,17 @@ func init() {
 				fs, inc = append(fs, f2...), append(inc, i2...)
 				ev["rt_flood"] = e2
 			}
+			if prop == "C14" || prop == "C16" {
+				// a node following a scripted committee: syncs arriving while its commit callback runs (C14), shutdown while the
+				// transport is slow inside the send of its COMMIT (C16)
+				floors := map[string]int{"C14 syncs pending while the commit callback runs": 40, "C14 stale batches judged": 20}
+				if prop == "C16" {
+					floors = map[string]int{"C16 shutdowns with a held COMMIT send": 10}
+				}
+				f3, e3, i3 := rtPart(run, "commitsync", 48, 2000, floors)
+				fs, inc = append(fs, f3...), append(inc, i3...)
+				ev["rt_commitsync"] = e3
+			}
 			counters := ev["rt_counters"].(map[string]int)
 			cov := map[string]interface{}{
 				"evaluations":         counters[nontrivialKey],
